@@ -133,6 +133,7 @@ type exchange struct {
 	abortUploadAt   int // -1: no
 	abortDownloadAt int // -1: no; close after this many body bytes
 	noRead   bool
+	pause    time.Duration // the client waits this long before sending
 	resp     *respScript
 	// observed
 	seen      []*seenReq
@@ -570,6 +571,9 @@ func buildRequestHead(ex *exchange) []byte {
 
 func (c *sClient) run(ex *exchange) {
 	env := c.env
+	if ex.pause > 0 {
+		time.Sleep(ex.pause)
+	}
 	env.mu.Lock()
 	ex.started = true
 	ex.startedAt = env.x.Now()
@@ -698,6 +702,7 @@ func (c *sClient) run(ex *exchange) {
 // the driver
 
 type driveOpts struct {
+	idleFor     time.Duration // keep the world running for this long even if no exchange is queued
 	maxSteps    int
 	fragment    bool          // deliver in-flight bytes in drawn fragments
 	delays      bool          // draw small delivery delays
@@ -718,7 +723,14 @@ func (env *sysEnv) drive(o driveOpts) bool {
 		o.maxVirtual = 20 * time.Minute
 	}
 	deadline := time.Now().Add(o.maxVirtual)
+	idleUntil := time.Now().Add(o.idleFor)
+	if o.idleFor > 0 && idleUntil.After(deadline) {
+		deadline = idleUntil
+	}
 	allDone := func() bool {
+		if o.idleFor > 0 && time.Now().Before(idleUntil) {
+			return false
+		}
 		env.mu.Lock()
 		defer env.mu.Unlock()
 		for _, cl := range env.clients {
@@ -766,7 +778,11 @@ func (env *sysEnv) drive(o driveOpts) bool {
 				x.Logf("driver: virtual-time budget exhausted at t=%v", x.Now())
 				return false
 			}
-			tm := time.NewTimer(time.Until(deadline))
+			wait := time.Until(deadline)
+			if o.idleFor > 0 && time.Now().Before(idleUntil) {
+				wait = time.Until(idleUntil)
+			}
+			tm := time.NewTimer(wait)
 			select {
 			case <-env.net.Activity():
 			case <-tm.C:
